@@ -145,9 +145,15 @@ def roundtrip(sym, shape, opts, focus):
     sym.check("second-dump-identical", again == written)
 
 
-def discinfo_roundtrip(sym, numbers, quoted_ok):
+# float timestamps are not symbolic: a pool of representative values (long fractions, tiny and huge magnitudes, negative,
+# shortest-repr corner cases).  Not a solver result; the solver part of this harness is the text fields and disc numbers.
+FLOATS = [1386856788.124593, 0.5, -3.25, 1e+22, 1234567890.0, 12345.678901234, 0.30000000000000004, 1e-09, -4.9e-324,
+          1.7976931348623157e+308, 1417653453.0000002, 5e-08, 123456789012345.67, -0.1]
+
+
+def discinfo_roundtrip(sym, numbers, quoted_ok, fi=0):
     d = DiscInfo()
-    d.timestamp = [1386856788.124593, 0.5, -3.25, 1e+22, 1234567890.0][numbers % 5 if numbers != "ALL" else 0]
+    d.timestamp = FLOATS[fi]
     d.description = sym.str("description", 5, minlen=1, alphabet=_cls([["!", "~"], " "]))
     sym.assume(sym.not_(d.description.startswith(" ")))
     sym.assume(sym.not_(d.description.endswith(" ")))
@@ -203,8 +209,8 @@ def jobs(tier, seed):
         for k in (range(12) if big else [(seed + si) % 12, (seed + si + 5) % 12]):
             o = _opts(shape, k)
             out.append({"harness": "roundtrip", "params": {"shape": shape, "opts": o, "focus": _focus(shape, o, k + seed)}, "validate_every": 40})
-    for numbers in ("ALL", 1, 2, 3):
-        out.append({"harness": "discinfo_roundtrip", "params": {"numbers": numbers, "quoted_ok": False}})
+    for fi in range(len(FLOATS)):
+        out.append({"harness": "discinfo_roundtrip", "params": {"numbers": ["ALL", 1, 2, 3][fi % 4], "quoted_ok": False, "fi": fi}})
     return out
 
 
